@@ -352,6 +352,31 @@ def run_case(ctx, i, rng):
                 ctx.violation("is_unique-mismatch-after-edit", "after edit kind %d is_unique=%s, oracle %s (valid=%s, paths=%d)" % (
                     k, u, uo, vo, inst_paths[id(li)]))
                 return
+    # E. held references as a COLLECTION of roots after the edits: the stale ones contribute nothing, every other one is
+    #    still answered (wire / cable / pin / port references answer with themselves), whatever their order in the collection
+    if edits:
+        try:
+            allocc, inst_paths = all_occ(n)
+        except (AttributeError, RecursionError):
+            allocc = None
+        if allocc is not None:
+            for cls, f, what in ((sdn.Wire, sdn.get_hwires, "hwires"), (sdn.Cable, sdn.get_hcables, "hcables"),
+                                 (sdn.InnerPin, sdn.get_hpins, "hpins"), (sdn.Port, sdn.get_hports, "hports")):
+                sub = [(h, s_) for h, s_ in zip(sample, seqs) if isinstance(s_[-1], cls)]
+                if len(sub) < 2:
+                    continue
+                rng.shuffle(sub)
+                wantc = collections.Counter(ids(s_) for h, s_ in sub if valid_oracle(s_, allocc))
+                stale = len(sub) - sum(wantc.values())
+                ctx.count("held_collection_queries")
+                ctx.count("held_collection_stale_roots", stale)
+                try:
+                    e = cmp(ctx, "get_%s(%d held references, %d of them stale)" % (what, len(sub), stale), list(f([h for h, _ in sub])), wantc)
+                except Exception as ex:  # noqa: BLE001
+                    e = "get_%s(held references) raised %r" % (what, ex)
+                if e:
+                    ctx.violation("held-collection-after-edit:%s" % what, "%s | %s" % (e, st))
+                    return
     multi = any(v > 1 for v in collections.Counter(id(s[-1].reference) for s in occ["instances"]).values())
     ctx.fingerprint((st, len(held)), multi and len(held) >= 150)
     ctx.count("edits_applied", edits)
